@@ -153,14 +153,37 @@ def insertStr (x : String) : List String → List String
 
 def sortStr (xs : List String) : List String := xs.foldr insertStr []
 
-/-- `cdd_estimates - base_estimate` aligns on labels; when the two label orders
-    differ pandas returns the columns in sorted order.  The deltas are then used
-    *positionally* against `covariance_matrix.values`. -/
-def cook2Labelled (colLabels : List String) (cols : List (List Rat)) (baseLabels : List String) (base : List Rat)
+/-- `compute_cook_scores` on labelled inputs: `names = cdd_estimates.columns`,
+    `base_estimate[names]`, `covariance_matrix.loc[names, names]`, then the
+    positional computation. -/
+def cook2Labelled (colLabels : List String) (cols : List (List Rat)) (base : List (String × Rat)) (c : LCov) :
+    List (Option Rat) :=
+  cook2 (colLabels.map (fun l => (lookupS base l).getD 0)) cols
+    (colLabels.map (fun a => colLabels.map (fun b => c.entry a b)))
+
+/-- The pre-repair variant (before f1a9548): pandas re-orders the deltas to sorted
+    labels when the base estimate is labelled in another order, and the covariance
+    values are used positionally. Kept for the witness theorem only. -/
+def cook2Positional (colLabels : List String) (cols : List (List Rat)) (base : List (String × Rat))
     (m : List (List Rat)) : List (Option Rat) :=
-  let order := if baseLabels == colLabels then colLabels else sortStr colLabels
+  let order := if base.map (·.1) == colLabels then colLabels else sortStr colLabels
   let colOf := fun l => (lookupS (colLabels.zip cols) l).getD []
-  let baseOf := fun l => (lookupS (baseLabels.zip base) l).getD 0
-  cook2 (order.map baseOf) (order.map colOf) m
+  cook2 (order.map (fun l => (lookupS base l).getD 0)) (order.map colOf) m
+
+/-! ### labelled data: shrinkage -/
+
+/-- `calculate_eta_shrinkage`: the variance estimates are labelled with the model's
+    eta names and selected by the column labels of `individual_estimates`. -/
+def etaShrinkageL (etaNames : List String) (omegas : List Rat) (ie : List (String × List Rat)) : List (String × Rat) :=
+  ie.map (fun nc => (nc.1, etaShrinkage nc.2 ((lookupS (etaNames.zip omegas) nc.1).getD 0)))
+
+/-- pre-repair variant (before 05239f5): omegas paired with the columns by position -/
+def etaShrinkagePositional (omegas : List Rat) (ie : List (String × List Rat)) : List (String × Rat) :=
+  (ie.zip omegas).map (fun p => (p.1.1, etaShrinkage p.1.2 p.2))
+
+/-- `calculate_individual_shrinkage`, one individual: the diagonal of its matrix
+    (labelled) divided by the omega of the eta with that label. -/
+def indShrinkageL (etaNames : List String) (omegas : List Rat) (diag : List (String × Rat)) : List (String × Rat) :=
+  diag.map (fun nd => (nd.1, indShrinkage nd.2 ((lookupS (etaNames.zip omegas) nd.1).getD 0)))
 
 end Pharmpy.C19.Stats
